@@ -846,3 +846,51 @@ def rule_rank_fits_arrays(ctx):
         ctx.holds("RANKBOUND", key, g.where(gate[2]), "rank is limited to %d (%s); the smallest per-dimension array holds %d entries (%d array uses checked)" % (gate[0], gate[1], smallest, arrays), nontrivial=True)
     ctx.floor("RANKBOUND", 6, arrays, "(per-dimension local arrays indexed up to the rank)")
     return 1
+
+
+def rule_empty_request_tested(ctx):
+    """EMPTYREQ (C03): NCgenio walks a strided request with an 'odometer' loop that has no entry condition: it transfers one element
+    (NCvario) and only then advances the indices and tests for the end.  Such a loop transfers at least one element whatever the
+    counts are, so a request that selects nothing (a count of 0 along some dimension) must be turned away before the loop: a test
+    of the per-dimension counts against 0 whose arm returns, ahead of the loop in the same routine."""
+    from .codec import ast_walk
+    from .facts import kind, strip, walk, render, is_int, calls_in, base_var
+    prog = ctx.prog
+    n = 0
+    for f in prog.lib_funcs():
+        if not f.rel.startswith("mfhdf/src/putget") or not f.raw.get("ast"):
+            continue
+        order = []
+        ast_walk(f.raw["ast"], lambda nd, st: (order.append((nd, list(st))), True)[1])
+        for i, (nd, st) in enumerate(order):
+            if nd[0] != "for" or nd[2] is not None:
+                continue
+            body = nd[4]
+            kids = body[1] if body and body[0] == "block" else [body]
+            if not kids or kids[0][0] != "s" or not any(c[1] in ("NCvario", "H4_NCvario") for c in calls_in(kids[0][1], True)):
+                continue
+            n += 1
+            key = "EMPTYREQ:%s" % f.name
+            line = nd[-3] if isinstance(nd[-3], int) else f.line
+            # arrays loaded from the `count` parameter
+            cnt = {"count"}
+            for _b, _i, _s, x in f.nodes(True):
+                if x[0] == "asg" and x[1] == "=" and kind(strip(x[2])) == "idx" and any(y[0] == "var" and y[1] == "count" for y in walk(x[3], True)):
+                    cnt.add(base_var(x[2]))
+            ok = False
+            for nd2, st2 in order[:i]:
+                if nd2[0] != "if":
+                    continue
+                c = strip(nd2[1])
+                tested = any(y[0] == "bin" and y[1] in ("==", "<=", "<") and kind(strip(y[2])) == "idx" and base_var(y[2]) in cnt and is_int(y[3]) for y in walk(c, True))
+                arm = nd2[2]
+                leaves = arm[1] if arm[0] == "block" else [arm]
+                returns = any(k[0] == "s" and kind(k[1]) == "ret" for k in leaves)
+                if tested and returns:
+                    ok = True
+            if ok:
+                ctx.holds("EMPTYREQ", key, f.where(line), "the counts are tested against 0 (and the routine returns) before the loop that transfers before it tests", nontrivial=True)
+            else:
+                ctx.violated("EMPTYREQ", key, f.where(line), "this loop transfers one element with NCvario before it tests its stop condition, and nothing ahead of it turns away a request whose count is 0: an empty strided request still writes (or reads) one element")
+    ctx.floor("EMPTYREQ", 1, n, "(transfer loops without an entry condition)")
+    return n
